@@ -123,8 +123,17 @@ class _Gen:
                 if sg:
                     lhs = ["sig", r.choice(sg)]
             return [r.choice(["<<", ">>"]), lhs, amt]
-        if k < 0.9:
+        if k < 0.88:
             return ["mux", self.numeric(readable, depth - 1), a, self.numeric(readable, depth - 1)]
+        if k < 0.91:
+            # reading an Array of values of unrelated shapes by a computed index (out of range: the last element)
+            # (the index is always in range, as for Array targets: what an out-of-range index selects is not specified)
+            kbits = r.choice([1, 1, 2])
+            elems = [a] + [self.numeric(readable, depth - 1) for _ in range((1 << kbits) - 1)]
+            idx = self.explicit_unsigned(readable, maxw=kbits)
+            if shape_of(idx, self.sigs)[0] > kbits:
+                idx = ["slice", idx, 0, kbits]
+            return ["array", elems, idx]
         e = self.explicit(readable, depth)
         w, s = shape_of(e, self.sigs)
         q = r.random()
